@@ -317,7 +317,7 @@ class SimplicialComplex(Hypergraph):
             warn(f"uid {idx} already exists, cannot add simplex {members}")
             return
 
-        idx = self._new_edge_uid() if not idx else idx
+        idx = self._new_edge_uid() if idx is None else idx
 
         self._add_simplex(members, idx, **attr)
 
